@@ -132,6 +132,13 @@ func TestC16SMTSmall(t *testing.T) {
 				if ok, _, pan = safeVerify(smt, k, nil, false, root, cloneProof(proof)); ok || pan != nil {
 					t.Fatalf("soundness: present key proven absent (panic=%v)", pan)
 				}
+				if len(val) != 0 {
+					for _, empty := range [][]byte{nil, {}} {
+						if ok, _, pan = safeVerify(smt, k, empty, true, root, cloneProof(proof)); ok || pan != nil {
+							t.Fatalf("soundness: membership of (key, empty value) accepted although the stored value is %x (panic=%v)", val, pan)
+						}
+					}
+				}
 			} else {
 				if ok, _, pan = safeVerify(smt, k, []byte{1}, true, root, cloneProof(proof)); ok || pan != nil {
 					t.Fatalf("soundness: absent key proven present (panic=%v)", pan)
